@@ -53,10 +53,11 @@ class Tok(GridObject, register=False):
         return 1
 
     def __eq__(self, other):
-        return self is other
+        # "the object at that world cell": the same token, or an equal copy of it (tokens have unique names)
+        return isinstance(other, Tok) and other.name == self.name
 
     def __hash__(self):
-        return id(self)
+        return hash(self.name)
 
     def __repr__(self):
         return f'Tok({self.name})'
@@ -192,6 +193,6 @@ def same_cells(a, b):
             p, q = a.grid.objects[yy][xx], b.grid.objects[yy][xx]
             if isinstance(p, Hidden) and isinstance(q, Hidden):
                 continue
-            if p is not q:
+            if isinstance(p, Hidden) or isinstance(q, Hidden) or not (p == q):
                 return False
     return True
